@@ -297,15 +297,31 @@ def ev(t, ctx):
         return -ev(t[1], ctx)
     if k == '**':
         a, b = ev(t[1], ctx), ev(t[2], ctx)
-        if val(a) <= 0.0:
-            raise OutOfDomain('power of a non-positive number')
-        if ctx.strict_fragile and val(a) < 1e-9:
-            raise OutOfDomain('power of a number smaller than 1e-9')
         if 'pow2_hessian' in ctx.quirks and isinstance(a, HD) and t[2] == ('num', 2.0):
             # engine defect (bioExprPowerConstant.cc, exponent == 2): Hessian 2 g g' + 2 h instead of 2 g g' + 2 f h
             n = len(a.g)
             return HD(a.v * a.v, [2.0 * a.v * gi for gi in a.g],
                       [[2.0 * a.g[i] * a.g[j] + 2.0 * a.h[i][j] for j in range(n)] for i in range(n)])
+        if t[2][0] == 'num' and float(t[2][1]).is_integer() and abs(t[2][1]) <= 8:
+            # constant integer exponent: defined for any base (non-zero for negative exponents)
+            n_ = int(t[2][1])
+            va = val(a)
+            if va == 0.0 and n_ <= 0:
+                raise OutOfDomain('zero to a non-positive power')
+            if ctx.strict_fragile and abs(va) < 1e-9 and n_ < 0:
+                raise OutOfDomain('negative power of a number smaller than 1e-9')
+            if va <= 0.0 or n_ >= 0:
+                try:
+                    f_ = va ** n_
+                    d1_ = n_ * va ** (n_ - 1) if n_ != 0 else 0.0
+                    d2_ = n_ * (n_ - 1) * va ** (n_ - 2) if n_ not in (0, 1) else 0.0
+                except (OverflowError, ZeroDivisionError):
+                    raise OutOfDomain('integer power overflow')
+                return _finite(a.chain(f_, d1_, d2_) if isinstance(a, HD) else f_, '**')
+        if val(a) <= 0.0:
+            raise OutOfDomain('power of a non-positive number')
+        if ctx.strict_fragile and val(a) < 1e-9:
+            raise OutOfDomain('power of a number smaller than 1e-9')
         return _finite(_pow(a, b), '**')
     if k == 'exp':
         a = ev(t[1], ctx)
